@@ -200,6 +200,18 @@ func classifyAddr(a ssa.Value) Write {
 		case *ssa.Convert:
 			a = x.X
 			continue
+		case *ssa.TypeAssert:
+			a = x.X
+			continue
+		case *ssa.MakeInterface:
+			a = x.X
+			continue
+		case *ssa.ChangeInterface:
+			a = x.X
+			continue
+		case *ssa.Extract:
+			a = x.Tuple
+			continue
 		}
 		break
 	}
